@@ -124,6 +124,22 @@ def registerLoggee(module, name='LOG', flags=DEBUG_NONE):
     return _LOG
 
 
+def prettyValue(value):
+    """Render *value* for a debug message. Never raises: a value that
+    cannot be printed (an OCTET STRING that does not decode into text, a
+    number beyond the int-to-str limit) must not make the codec fail just
+    because logging is on.
+    """
+    for render in (lambda v: v.prettyPrint(), str, repr):
+        try:
+            return render(value)
+
+        except Exception:
+            continue
+
+    return '<unprintable %s>' % value.__class__.__name__
+
+
 def hexdump(octets):
     return ' '.join(
         ['%s%.2X' % (n % 16 == 0 and ('\n%.5d: ' % n) or '', x)
